@@ -327,6 +327,13 @@ Theorem C20_inscription_roundtrip : forall h20 ct data enriched, length h20 = 20
 Proof. exact inscription_roundtrip. Qed.
 Print Assumptions C20_inscription_roundtrip.
 
+(** whatever ParseInscription reports as the locking-script prefix is the first 25 bytes of the script and those
+    are the P2PKH template (a prefix that only decodes to the same parts is refused, not returned a byte short) *)
+Theorem C20_parsed_prefix_is_the_p2pkh_script : forall s ct d pre,
+  parse_inscription s = PIOk ct d pre -> pre = firstn 25 s /\ Fees.is_p2pkh pre = true.
+Proof. exact parse_inscription_prefix. Qed.
+Print Assumptions C20_parsed_prefix_is_the_p2pkh_script.
+
 (** beyond that length Inscribe returns the push error instead of a script *)
 Theorem C20_inscribe_too_big : forall prefix ct data enriched,
   4294967296 <= lenN ct \/ 4294967296 <= lenN data -> inscribe_script prefix ct data enriched = None.
